@@ -21,6 +21,42 @@ from vt.clock import CLOCK
 RUNNING, ZOMBIE, REAPED = 'RUNNING', 'ZOMBIE', 'REAPED'
 PID_BASE = 5_000_000          # above pid_max: never a real pid
 
+MODEL_ERRORS = []             # exceptions raised by the MODEL itself (a harness bug, never daemon behaviour)
+
+
+class ModelError(Exception):
+    pass
+
+
+def _guard(fn):
+    """Daemon-facing model entry point: an exception that is not part of the modelled interface (OSError, psutil's,
+    ValueError, subprocess.TimeoutExpired) is a bug of the model.  It is recorded so that the execution is reported as a
+    harness crash even when the daemon swallows it (circus catches broad exceptions in places)."""
+    import functools
+    import subprocess
+
+    @functools.wraps(fn)
+    def wrapper(*a, **kw):
+        try:
+            return fn(*a, **kw)
+        except (OSError, psutil.Error, ValueError, subprocess.TimeoutExpired):
+            raise
+        except Exception as e:
+            if getattr(e, '_vt_injected', False):
+                raise          # a fault the scenario asked for
+            import traceback
+            MODEL_ERRORS.append('%s: %s' % (fn.__name__, traceback.format_exc()[-800:]))
+            raise
+    return wrapper
+
+
+def _guard_class(cls):
+    for k, v in list(vars(cls).items()):
+        if callable(v) and not k.startswith('_'):
+            setattr(cls, k, _guard(v))
+    return cls
+
+
 IGNORED_BY_DEFAULT = {int(signal.SIGCHLD), int(signal.SIGWINCH), int(signal.SIGURG),
                       int(signal.SIGCONT)}
 
@@ -81,7 +117,7 @@ class Proc(object):
     __slots__ = ('pid', 'parent', 'children', 'state', 'wstatus', 'behaviour', 'argv',
                  'env', 'cwd', 'close_fds', 'shell', 'executable', 'spawn_time',
                  'death_time', 'signals', 'out_w', 'err_w', 'watcher', 'wid', 'role',
-                 'inherit_fds', 'is_worker', 'popen', 'reaped_by', 'pending_death', 'pass_fds', 'orig_parent', 'child_fds', 'death_seq')
+                 'inherit_fds', 'is_worker', 'popen', 'reaped_by', 'pending_death', 'pass_fds', 'orig_parent', 'child_fds', 'death_seq', 'death_cause')
 
     def __init__(self, pid):
         self.pid = pid
@@ -98,6 +134,7 @@ class Proc(object):
         self.executable = None
         self.spawn_time = CLOCK.now
         self.death_time = None
+        self.death_cause = None
         self.signals = []            # (t, signum, sent_by)
         self.out_w = self.err_w = None
         self.watcher = None
@@ -189,6 +226,7 @@ class SimKernel(object):
             self.spawn_child_of(p, cb)
         return p
 
+    @_guard
     def die(self, pid, wstatus, cause='self'):
         """RUNNING -> ZOMBIE (or straight to gone for non-children of the daemon)."""
         p = self.procs[pid]
@@ -197,6 +235,7 @@ class SimKernel(object):
         p.state = ZOMBIE
         p.wstatus = wstatus
         p.death_time = CLOCK.now
+        p.death_cause = cause
         self.event_seq += 1
         p.death_seq = self.event_seq
         p.pending_death = False
@@ -248,6 +287,7 @@ class SimKernel(object):
                     ('death', pid))
 
     # --- os.kill / os.waitpid ----------------------------------------------
+    @_guard
     def kill(self, pid, sig):
         if pid in self.foreign:
             if not self.foreign[pid]:
@@ -263,6 +303,7 @@ class SimKernel(object):
         p.reaped_by = by
         return p.pid, p.wstatus
 
+    @_guard
     def waitpid(self, pid, options):
         self.kpoint('waitpid' if pid != -1 else 'waitpid(-1)', pid)
         nohang = bool(options & os.WNOHANG)
@@ -289,6 +330,7 @@ class SimKernel(object):
         CLOCK.block('blocking waitpid(%d) on a running process' % pid)
 
     # --- Popen ----------------------------------------------------------
+    @_guard
     def Popen(self, args, cwd=None, shell=False, preexec_fn=None, env=None, close_fds=True,
               executable=None, stdout=None, stderr=None, stdin=None, **kw):
         self.popen_attempts += 1
@@ -297,6 +339,7 @@ class SimKernel(object):
         if self.popen_fault is not None:
             exc = self.popen_fault(self, self.popen_attempts, info)
             if exc is not None:
+                exc._vt_injected = True
                 raise exc
         p = Proc(self.new_pid())
         p.is_worker = True
@@ -437,6 +480,7 @@ def _caller_info():
     return {}
 
 
+@_guard_class
 class SimPopen(object):
     """psutil.Popen as circus uses it."""
 
@@ -582,6 +626,7 @@ class SimPopen(object):
         return EPOCH + self._p.spawn_time
 
 
+@_guard_class
 class SimChild(SimPopen):
     """psutil.Process of a descendant."""
 
